@@ -9,13 +9,14 @@ import (
 )
 
 func init() {
-	Explanations["C05"] = "Decides structural necessary conditions of 'the pool is a valid continuation of the tip' in chain.Manager and the miner: (R1) every exported Manager method that reads the pool's lists, index map or weight — directly, in a closure, or through an unexported helper that does — calls the revalidation step after locking and before the first such read; (R2) every success return of the tip walker passes the store that discards the pool's mid-state; (R3) in the apply step Store.ApplyBlock(cs, cau) is followed on every path by the pool's apply update with the same two values, and likewise for revert; (R4) every registration of a transaction in the pool's index map is dominated by the success edge of consensus.Validate(V2)Transaction against the pool's mid-state for that transaction (directly, or through a staging slice filled only on that edge) and each such validation success is followed by the matching mid-state Apply; (R5) in MineBlock every append to the block's transaction lists lies on the passing side of the block-weight test and the loop leaves (break/return) on the failing side, so a prefix is taken; (R6) the proof updater used when blocks are applied/reverted under the pool excludes the ephemeral sentinel before range-checking a leaf index, so a pooled child of a pooled parent is not dropped by an unrelated block. NOT decided: that moved proofs verify, that a mined block is accepted, retention until confirmation."
+	Explanations["C05"] = "Decides structural necessary conditions of 'the pool is a valid continuation of the tip' in chain.Manager and the miner: (R1) every exported Manager method that reads the pool's lists, index map or weight — directly, in a closure, or through an unexported helper that does — calls the revalidation step after locking and before the first such read; (R2) every success return of the tip walker passes the store that discards the pool's mid-state; (R3) in the apply step Store.ApplyBlock(cs, cau) is followed on every path by the pool's apply update with the same two values, and likewise for revert; (R4) every registration of a transaction in the pool's index map is dominated by the success edge of consensus.Validate(V2)Transaction against the pool's mid-state for that transaction (directly, or through a staging slice filled only on that edge) and each such validation success is followed by the matching mid-state Apply; (R5) in MineBlock every append to the block's transaction lists lies on the passing side of the block-weight test and the loop leaves (break/return) on the failing side, so a prefix is taken; (R6) the proof updater used when blocks are applied/reverted under the pool excludes the ephemeral sentinel before range-checking a leaf index, so a pooled child of a pooled parent is not dropped by an unrelated block; (R7) every pointer the proof updater passes to its per-element closure points into the transaction it was given (through the parameter and index expressions) or through a pointer-typed value — never at a by-value loop copy, whose update would be discarded. NOT decided: that moved proofs verify, that a mined block is accepted, retention until confirmation."
 
 	register(&Rule{ID: "C05.R1", Prop: "C05", Floor: 10, Doc: "revalidate-before-read in every exported pool reader", Run: c05r1})
 	register(&Rule{ID: "C05.R2", Prop: "C05", Floor: 1, Doc: "tip change discards the pool mid-state", Run: c05r2})
 	register(&Rule{ID: "C05.R3", Prop: "C05", Floor: 2, Doc: "store apply/revert is paired with the pool update for the same update and state", Run: c05r3})
 	register(&Rule{ID: "C05.R4", Prop: "C05", Floor: 4, Doc: "only transactions validated against the pool mid-state are admitted, and each is applied to it", Run: c05r4})
 	register(&Rule{ID: "C05.R5", Prop: "C05", Floor: 2, Doc: "mined block takes pool prefixes up to the weight limit", Run: c05r5})
+	register(&Rule{ID: "C05.R7", Prop: "C05", Floor: 4, Doc: "the proof updater hands out pointers into the transaction itself, never into a loop copy", Run: c05r7})
 	register(&Rule{ID: "C05.R6", Prop: "C05", Floor: 1, Doc: "moving pooled proofs does not declare ephemeral inputs invalid (same check as C13.R6)", Run: ephemeralSkipped})
 }
 
@@ -421,4 +422,48 @@ func c05r5(c *Ctx) {
 	if n == 0 {
 		ir.Fail("no block-weight test inside a pool loop found in MineBlock")
 	}
+}
+
+// c05r7: &x handed to the element updater must not be rooted at a by-value local copy.
+func c05r7(c *Ctx) {
+	pu := proofUpdaterFn(c)
+	var txnParam types.Object
+	for _, nm := range pu.Type.Params.List[0].Names {
+		txnParam = pu.Info().Defs[nm]
+	}
+	// the per-element closure: local variable bound to a literal taking *StateElement
+	n := 0
+	for _, call := range pu.Calls(false) {
+		if call.Fn != nil || len(call.Expr.Args) != 1 {
+			continue
+		}
+		u, ok := ast.Unparen(call.Expr.Args[0]).(*ast.UnaryExpr)
+		if !ok || u.Op.String() != "&" {
+			continue
+		}
+		n++
+		c.Visit(1)
+		ob := c.Ob(pu, "pointer-into-transaction", call.Pos())
+		root := pu.ObjOf(rootOfLvalue(u.X))
+		switch {
+		case root == txnParam:
+			ob.OK("rooted at the transaction parameter")
+		case root != nil && isPointer(root.Type()):
+			ob.OK("rooted at a pointer-typed value")
+		default:
+			name := "?"
+			if root != nil {
+				name = root.Name()
+			}
+			ob.Bad(nil, "the element updater is given &%s at %s, which is rooted at the by-value local %q: the moved proof is written to a copy and discarded, so the pooled transaction keeps a stale proof and is dropped at the next revalidation", ir.ExprString(u.X), c.P.Pos(call.Pos()), name)
+		}
+	}
+	if n == 0 {
+		ir.Fail("no &element call of the per-element updater found")
+	}
+}
+
+func isPointer(t types.Type) bool {
+	_, ok := t.Underlying().(*types.Pointer)
+	return ok
 }
